@@ -29,6 +29,7 @@ pub fn snap(b: &Bitboard) -> Value {
         "occ": occ,
         "h": limbs(b.calculate_zobrist_hash()),
         "ph": limbs(b.calculate_zobrist_pawn_hash()),
+        "ply": b.ply_clock(),
     })
 }
 
@@ -100,7 +101,12 @@ impl<'a> Ctx<'a> {
         let b = &mut self.board;
         let valid = g!("is_valid", b.is_valid());
         let s = g!("snapshot", snap(b));
-        self.out.emit(&json!({"c": id, "ev": "make", "uci": mv.to_uci_string(), "d": limbs(d), "pd": limbs(pd), "valid": valid, "snap": s}));
+        // the move record as the API exposes it (MoveStructs): moved piece, captured piece, promotion piece, flags
+        let ms = inkayaku_board::MoveStructs::from(mv);
+        let desc = json!({"moved": ms.from_piece.fen.to_string(), "captured": ms.to_piece.map_or("-".to_string(), |p| p.fen.to_string()),
+                          "promo": ms.promote_to.map_or("-".to_string(), |p| p.fen.to_string()), "from": ms.from_square.fen, "to": ms.to_square.fen,
+                          "castle": mv.is_castle_move(), "ep": mv.is_en_passant_attack(), "attack": mv.is_attack(), "reset": mv.is_halfmove_reset()});
+        self.out.emit(&json!({"c": id, "ev": "make", "uci": mv.to_uci_string(), "d": limbs(d), "pd": limbs(pd), "valid": valid, "mv": desc, "snap": s}));
         Ok(())
     }
 
